@@ -22,11 +22,12 @@ from checks.pcommon import prog, explore_source, pd_summary, error_variants, acc
 WRAPPERS = ["Vec<{}>", "Option<{}>", "HashMap<String, {}>", "HashMap<{}, String>", "Box<{}>", "Arc<{}>", "&'static {}", "[{}; 2]",
             "&'static [{}]", "Foo<{}>", "std::vec::Vec<{}>"]
 LEAVES = ["X64", "Xsize", "(A, B)"]
-POSITIONS = ["field", "tuple_struct", "newtype_variant", "struct_variant_field", "alias", "const", "serialized_as_field", "serialized_as_item"]
+POSITIONS = ["field", "tuple_struct", "newtype_variant", "struct_variant_field", "alias", "const", "serialized_as_field", "serialized_as_item",
+             "serialized_as_tuple_struct", "serialized_as_variant_payload", "serialized_as_variant_field", "serialized_as_enum_item"]
 SKIPS = {"field": ["", "#[serde(skip)]", "#[typeshare(skip)]", "#[serde(default, skip)]", "#[serde(default)] #[doc = \"d\"] #[serde(skip)]"],
          "newtype_variant": ["", "#[serde(skip)]", "#[typeshare(skip)]"],
          "struct_variant_field": ["", "#[serde(skip)]", "#[typeshare(skip)]", "VARIANT#[typeshare(skip)]"],
-         "serialized_as_field": ["", "#[serde(skip)]"]}
+         "serialized_as_field": ["", "#[serde(skip)]"], "serialized_as_variant_payload": ["", "#[serde(skip)]"], "serialized_as_variant_field": ["", "#[typeshare(skip)]"]}
 
 
 def chains(depth):
@@ -64,6 +65,15 @@ def source_a(pos, chain, leaf, skip):
         return '#[typeshare]\npub struct Outer { pub keep: String, %s #[typeshare(serialized_as = "%s")] pub bad: Foo }\n' % (skip, ty.replace("'static ", ""))
     if pos == "serialized_as_item":
         return '#[typeshare(serialized_as = "%s")]\npub struct Outer { pub x: Foo }\n' % ty.replace("'static ", "")
+    sa = ty.replace("'static ", "")
+    if pos == "serialized_as_tuple_struct":
+        return '#[typeshare]\npub struct Outer(#[typeshare(serialized_as = "%s")] Foo);\n' % sa
+    if pos == "serialized_as_variant_payload":
+        return '#[typeshare]\n#[serde(tag = "type", content = "content")]\npub enum Outer { Keep(String), %s Bad(#[typeshare(serialized_as = "%s")] Foo) }\n' % (skip, sa)
+    if pos == "serialized_as_variant_field":
+        return '#[typeshare]\n#[serde(tag = "type", content = "content")]\npub enum Outer { Keep(String), Bad { keep: String, %s #[typeshare(serialized_as = "%s")] bad: Foo } }\n' % (skip, sa)
+    if pos == "serialized_as_enum_item":
+        return '#[typeshare(serialized_as = "%s")]\npub enum Outer { A, B }\n' % sa
     raise KeyError(pos)
 
 
